@@ -573,4 +573,90 @@ theorem implicit_out_not_prefix (root name fmt rest : List Char) :
   obtain ⟨t, ht⟩ := h
   simp at ht
 
+/-! ### convert_dir run again: what one entry writes depends on the bytes of its source only -/
+
+/-- The path `convert_dir` reads for a walked entry, and the path it writes. -/
+def cdIn (e : Path × List Char) : Path := pyJoin e.1 e.2
+def cdOut (fmt : ResFormat) (mapd : Path → Path) (e : Path × List Char) : Path :=
+  outName fmt (pyJoin (mapd e.1) e.2)
+
+/-- What `_convert_file` writes for a source holding `c` (`none`: it raises, or — `v1_1` — the
+    converted text has no `<odML ` root and nothing is written). A function of the source path and
+    the bytes found there, of nothing else: not of the output location, not of any earlier run. -/
+def cdData (T : Tool) (fmt : ResFormat) (inFile : Path) (c : Option Bytes) : Option Bytes :=
+  match fmt with
+  | .v1_1 => match T.convert inFile c with | .ok (some d) => some d | _ => none
+  | _ => match T.render inFile c with | .ok d => some d | _ => none
+
+theorem convertDirStep_fs (T : Tool) (fmt : ResFormat) (mapd : Path → Path) (e : Path × List Char)
+    (fs : Fs) :
+    (convertDirStep T fmt mapd e fs).1 =
+      match cdData T fmt (cdIn e) (fs (cdIn e)) with
+      | some d => fs.write (cdOut fmt mapd e) d
+      | none => fs := by
+  unfold convertDirStep cdData cdIn cdOut
+  cases fmt with
+  | v1_1 =>
+    simp only []
+    cases T.convert (pyJoin e.1 e.2) (fs (pyJoin e.1 e.2)) with
+    | error x => rfl
+    | ok o => cases o <;> rfl
+  | odml =>
+    simp only []
+    cases T.render (pyJoin e.1 e.2) (fs (pyJoin e.1 e.2)) <;> rfl
+  | rdf ext =>
+    simp only []
+    cases T.render (pyJoin e.1 e.2) (fs (pyJoin e.1 e.2)) <;> rfl
+
+/-- A step changes the file system at the entry's output path only. -/
+theorem convertDirStep_other (T : Tool) (fmt : ResFormat) (mapd : Path → Path) (e : Path × List Char)
+    (fs : Fs) (p : Path) (hp : p ≠ cdOut fmt mapd e) : (convertDirStep T fmt mapd e fs).1 p = fs p := by
+  rw [convertDirStep_fs]
+  cases cdData T fmt (cdIn e) (fs (cdIn e)) with
+  | none => rfl
+  | some d => exact write_other fs _ p d hp
+
+/-- … and when the step writes (`cdData = some d`), the output path holds `d` whatever it held. -/
+theorem convertDirStep_out (T : Tool) (fmt : ResFormat) (mapd : Path → Path) (e : Path × List Char)
+    (fs : Fs) (d : Bytes) (hd : cdData T fmt (cdIn e) (fs (cdIn e)) = some d) :
+    (convertDirStep T fmt mapd e fs).1 (cdOut fmt mapd e) = some d := by
+  rw [convertDirStep_fs, hd]
+  exact write_same fs _ d
+
+/-- The loop changes nothing outside the output paths of its entries. -/
+theorem convertDirLoop_other (T : Tool) (fmt : ResFormat) (mapd : Path → Path)
+    (entries : List (Path × List Char)) (fs : Fs) (p : Path)
+    (hp : ∀ e ∈ entries, p ≠ cdOut fmt mapd e) : (convertDirLoop T fmt mapd entries fs).1 p = fs p := by
+  induction entries generalizing fs with
+  | nil => rfl
+  | cons e rest ih =>
+    have hstep := convertDirStep_other T fmt mapd e fs p (hp e List.mem_cons_self)
+    unfold convertDirLoop
+    generalize convertDirStep T fmt mapd e fs = x at hstep
+    obtain ⟨fs1, o⟩ := x
+    cases o with
+    | error x => exact hstep
+    | ok r =>
+      simp only []
+      rw [ih fs1 (fun e' he' => hp e' (List.mem_cons_of_mem _ he'))]
+      exact hstep
+
+/-- A completed run: the first step returned and the rest of the run completed. -/
+theorem convertDirLoop_cons_ok (T : Tool) (fmt : ResFormat) (mapd : Path → Path)
+    (e : Path × List Char) (rest : List (Path × List Char)) (fs : Fs)
+    (h : (convertDirLoop T fmt mapd (e :: rest) fs).2 = .ok ()) :
+    (convertDirLoop T fmt mapd (e :: rest) fs).1 =
+        (convertDirLoop T fmt mapd rest (convertDirStep T fmt mapd e fs).1).1 ∧
+      (convertDirLoop T fmt mapd rest (convertDirStep T fmt mapd e fs).1).2 = .ok () := by
+  have hc : convertDirLoop T fmt mapd (e :: rest) fs =
+      match convertDirStep T fmt mapd e fs with
+      | (fs1, .error x) => (fs1, .error x)
+      | (fs1, .ok _) => convertDirLoop T fmt mapd rest fs1 := rfl
+  rw [hc] at h ⊢
+  generalize convertDirStep T fmt mapd e fs = x at h ⊢
+  obtain ⟨fs1, o⟩ := x
+  cases o with
+  | error x => simp at h
+  | ok r => exact ⟨rfl, h⟩
+
 end Batch
